@@ -133,6 +133,28 @@ def strategy(tier):
     return _case(tier)
 
 
+def enumerate_cases(tier):
+    """Directed single-operator circuits (always run): symbolic wrappers and phase-only operators on the two standard rotation gate sets,
+    graph on and off."""
+    singles = [
+        {"op": "ctrl", "base": {"op": "adjoint", "base": {"op": "Hadamard", "p": [], "w": [1]}}, "cw": [0], "cv": [1]},
+        {"op": "pow", "base": {"op": "U3", "p": [0.3, 0.4, 0.5], "w": [0]}, "z": -1},
+        {"op": "adjoint", "base": {"op": "DoubleExcitationMinus", "p": [0.7], "w": [0, 1, 2, 3]}},
+        {"op": "GlobalPhase", "p": [0.3], "w": []},
+        {"op": "ctrl", "base": {"op": "GlobalPhase", "p": [0.3], "w": []}, "cw": [0, 1], "cv": [1, 0]},
+        {"op": "pow", "base": {"op": "CRX", "p": [0.9], "w": [0, 1]}, "z": 3},
+        {"op": "adjoint", "base": {"op": "adjoint", "base": {"op": "SX", "p": [], "w": [2]}}},
+        {"op": "MultiControlledX", "p": [], "w": [0, 1, 2, 3], "kw": {"control_values": [1, 0, 1]}},
+    ]
+    sets = [{"names": ["CNOT", "GlobalPhase", "RX", "RY", "RZ"], "form": "str"},
+            {"names": ["CNOT", "GlobalPhase", "RX", "RY", "S"], "form": "type"}]
+    for op in singles:
+        for graph in (True, False):
+            for gs in (sets if graph else sets[:1]):
+                yield {"wires": [0, 1, 2, 3], "ops": [op], "graph": graph, "gs": gs, "stop": None, "maxexp": None, "nww": 0, "minww": False,
+                       "strict": True, "fixed": None, "alt": None, "meas": []}
+
+
 # ---------------------------------------------------------------------------------------------
 # helpers
 # ---------------------------------------------------------------------------------------------
